@@ -35,6 +35,20 @@ pub fn note_ret(uid: u64) {
         GONE.with(|g| g.borrow_mut().insert(uid));
     }
 }
+/// the most recent destruction of `uid` is taken out of the effects again (the caller reports the value as handed
+/// back instead: `GenericWriteStorage::remove` destroys what `Storage::remove` returns)
+pub fn unlog_drop(uid: u64) -> bool {
+    DROPS.with(|d| {
+        let mut d = d.borrow_mut();
+        match d.iter().rposition(|&x| x == uid) {
+            Some(k) => {
+                d.remove(k);
+                true
+            }
+            None => false,
+        }
+    })
+}
 /// a value is being looked at: it must not be one that was destroyed or handed back already
 pub fn note_seen(uid: u64) {
     if tracked(uid) && GONE.with(|g| g.borrow().contains(&uid)) {
